@@ -985,10 +985,22 @@ impl fmt::Display for Type1<'_> {
 
     t1_str.push_str(&self.type2.to_string());
 
-    if let Type2::Typename { .. } = self.type2 {
-      if self.operator.is_some() {
-        t1_str.push(' ');
+    // An operand that ends in an identifier (`a`, `~a`, `&a`) would swallow a
+    // following ".." or ".ctl", and a control name would swallow an identifier
+    // or number that follows it, so those need blanks around the operator
+    let spaced_operator = match &self.operator {
+      Some(o) => {
+        matches!(o.operator, RangeCtlOp::CtlOp { .. })
+          || matches!(
+            self.type2,
+            Type2::Typename { .. } | Type2::Unwrap { .. } | Type2::ChoiceFromGroup { .. }
+          )
       }
+      None => false,
+    };
+
+    if spaced_operator {
+      t1_str.push(' ');
     }
 
     #[cfg(feature = "ast-comments")]
@@ -1003,7 +1015,7 @@ impl fmt::Display for Type1<'_> {
         t1_str.push_str(&comments.to_string());
       }
 
-      if let Type2::Typename { .. } = self.type2 {
+      if spaced_operator {
         t1_str.push(' ');
       }
 
@@ -1018,7 +1030,7 @@ impl fmt::Display for Type1<'_> {
     if let Some(o) = &self.operator {
       t1_str.push_str(&o.operator.to_string());
 
-      if let Type2::Typename { .. } = self.type2 {
+      if spaced_operator {
         t1_str.push(' ');
       }
 
